@@ -9,61 +9,20 @@ namespace K
 variable {α : Type} [Add α] [Sub α] [Mul α] [Div α] [Neg α] [LT α] [LE α]
   [DecidableLT α] [DecidableLE α] [OfScientific α] [KOps α]
 
-/-- mirrors: tween.rs::Easing -/
-inductive Easing (α : Type) where
-  | linear
-  | inPowi (p : Int)
-  | outPowi (p : Int)
-  | inOutPowi (p : Int)
-  | inPowf (p : α)
-  | outPowf (p : α)
-  | inOutPowf (p : α)
-deriving Repr
+/-- mirrors: tween.rs::Easing::apply — generated (GenFn.lean) -/
+def Easing.apply (e : Easing α) (x : α) : α := gen_body% Gen.easingApply e x
+gen_alias Gen.easingApply => Easing.apply
 
-/-- mirrors: tween.rs::Easing::apply -/
-def Easing.apply (e : Easing α) (x : α) : α :=
-  match e with
-  | .linear => x
-  | .inPowi p => powi x p
-  | .outPowi p => (1.0 : α) - powi ((1.0 : α) - x) p
-  | .inOutPowi p =>
-    let x := x * (2.0 : α)
-    if x < (1.0 : α) then (0.5 : α) * powi x p
-    else
-      let x := (2.0 : α) - x
-      (0.5 : α) * ((1.0 : α) - powi x p) + (0.5 : α)
-  | .inPowf p => KOps.pow x p
-  | .outPowf p => (1.0 : α) - KOps.pow ((1.0 : α) - x) p
-  | .inOutPowf p =>
-    let x := x * (2.0 : α)
-    if x < (1.0 : α) then (0.5 : α) * KOps.pow x p
-    else
-      let x := (2.0 : α) - x
-      (0.5 : α) * ((1.0 : α) - KOps.pow x p) + (0.5 : α)
-
-/-- mirrors: tween.rs::Tween::value (`duration` in nanoseconds) -/
-def tweenValue (easing : Easing α) (durationNs : Nat) (time : α) : α :=
-  easing.apply (time / (durToSecs durationNs : α))
-
-/-- mirrors: tween/tweenable.rs::Tweenable — linear interpolation on a value type `τ` -/
-structure Tweenable (α τ : Type) where
-  lerp : τ → τ → α → τ
+/-- mirrors: tween.rs::Tween::value (`duration` in nanoseconds) — generated (GenFn.lean) -/
+def tweenValue (easing : Easing α) (durationNs : Nat) (time : α) : α := gen_body% Gen.tweenValue easing durationNs time
+gen_alias Gen.tweenValue => tweenValue
 
 def tw64 : Tweenable α α := ⟨lerp64⟩
 def tw32 : Tweenable α α := ⟨lerp32⟩
 /-- mirrors: tweenable.rs `impl Tweenable for Duration` (nanoseconds) -/
-def twDur : Tweenable α Nat :=
-  ⟨fun a b t => KOps.durFromSecs ((durToSecs a : α) + ((durToSecs b : α) - (durToSecs a : α)) * t)⟩
+def twDur : Tweenable α Nat := ⟨fun a b t => gen_body% Gen.durationInterpolate a b t⟩
 /-- mirrors: clock_speed.rs `impl Tweenable for ClockSpeed` -/
 def twCs : Tweenable α (ClockSpeed α) := ⟨ClockSpeed.lerp⟩
-
-/-- mirrors: value.rs::Mapping<T> -/
-structure Mapping (α τ : Type) where
-  in0 : α
-  in1 : α
-  out0 : τ
-  out1 : τ
-  easing : Easing α
 
 /-- mirrors: value.rs::Mapping::map — the eased amount in [0,1] -/
 def Mapping.amount {τ : Type} (m : Mapping α τ) (input : α) : α :=
